@@ -271,6 +271,13 @@ def extras_assumptions(results):
     if any(k.startswith('R30') for k in fired):
         out.append('async port (rule R30, tool/erase.py): an await point is treated as a plain sequential call - one task, no interleaving between the steps of one operation; '
                    'a boxed future performs its call atomically at the poll that returns Ready (prelude/asyncport.rs); wakers / Context are scheduling and are dropped')
+    if 'R31' in fired:
+        out.append('machine arithmetic treated as mathematical in ONE place (rule R31): the u64 counter of copied entries in copy_dir is assumed not to overflow (one increment per copied entry)')
+    if any(r.name == 'U31_async_transfer' for r in results):
+        out.append('U31: awaiting `stream.next()` (futures::StreamExt, not a function of the crate) is modelled by a hand-written poll loop over the real poll_next; the loop is verified against '
+                   'poll_next\'s proved contract for every number of Pending returns, but that it is what awaiting futures\' Next future amounts to inside one task is assumed, and termination is not proved')
+    if any(r.name in ('U07_path_comp', 'U27_async_path_comp', 'U31_async_transfer') for r in results):
+        out.append('termination of remove_dir_all / copy_dir / move_dir / the directory walk is not proved (exec_allows_no_decreases_clause); FileSystem::move_dir fast path assumed to meet tc_move_dir')
     if 'R5' in fired:
         out.append('dyn FileSystem behind a VfsPath is only known through the trait contract TC (World, rule R5): proved for MemoryFS, AltrootFS and the serving side of OverlayFS, assumed for PhysicalFS / EmbeddedFS')
     if 'R4' in fired:
